@@ -34,7 +34,7 @@ def need(c, driver, counters):
 
 
 def recipe(c: Check):
-    c.build(["Properties/C09.vo", "Corr/C09.vo"], harness=["c09"])
+    c.build(["Properties/C09.vo", "Corr/C09.vo"], harness=["c09"], units=["c09facts"])
     c.obligations("C09")
     st = c.run_driver("ports", q(c.tier, 400, 6000), shards=q(c.tier, 8, 16))
     if st:
@@ -52,7 +52,15 @@ def recipe(c: Check):
         c.broken.append(dict(kind="coverage", name="driver portsys never exercised the same-port-back clause", detail=""))
     need(c, "portsys", ["NY_QUOTA_REFUSED", "NY_EXISTS_REFUSED", "NY_REGISTERED", "NY_RUN_REFUSED", "NY_CLOSE_OWN",
                         "NY_CLOSE_UNKNOWN", "NY_SESSION_END", "NY_LATE_CLOSE"])
-    st = c.run_driver("sched", q(c.tier, 20, 200), shards=q(c.tier, 4, 8))
+    st = c.run_driver("cfgload", q(c.tier, 18, 180), shards=q(c.tier, 2, 8))
+    need(c, "cfgload", ["NC_INI", "NC_TOML", "NC_YAML", "NC_JSON", "NC_REGISTERED", "NC_REFUSED"])
+    if st:
+        for k in ("ini-style-1", "ini-style-2"):
+            if st.get("distribution", {}).get(k, 0) <= 0:
+                c.broken.append(dict(kind="coverage", name="driver cfgload wrote no legacy ini list with blanks (%s)" % k, detail=""))
+    st = c.run_driver("sched", q(c.tier, 24, 240), shards=q(c.tier, 4, 8))
+    if st and st.get("distribution", {}).get("scenario:hangup-during-registration", 0) <= 0:
+        c.broken.append(dict(kind="coverage", name="driver sched never replayed the hang-up during a registration", detail=""))
     need(c, "sched", ["NS_REGISTERED", "NS_NAME_EXISTS"])
     gate_in_source = False
     try:
@@ -78,7 +86,11 @@ def recipe(c: Check):
              "reach the proxy. portsys driver: in-process frps on 127.0.9.2 with allowPorts and maxPortsPerClient in {0,1,2,3}, scripted "
              "pkg/msg clients: registrations (tcp/udp/grouped/stcp, duplicate names, over quota, refused ports), closes of own and unknown "
              "names, session ends with re-login, late udp Close, squatters; observed: NewProxyResp.RemoteAddr/Error, tables, bind scans. "
-             "sched driver: five interleavings of two sessions' registrations / closes (duplicate names racing through Exist|Run|Add, "
+             "cfgload driver: allowPorts / maxPortsPerClient written into real legacy-ini (compact, blank after commas, blanks around "
+             "every number and dash), toml, yaml and json files, loaded through config.LoadServerConfig, frps started from the loaded "
+             "values, registrations inside / outside the configured set and server-chosen; enforced set and quota must be the configured "
+             "ones (monitor) and today's parser model must agree with the loader. "
+             "sched driver: six interleavings (the sixth: the control connection drops while its NewProxy is being handled) of two sessions' registrations / closes (duplicate names racing through Exist|Run|Add, "
              "close between name check and Acquire, remembered port asked for while another registration holds it unbound, same port "
              "in the Acquire|Listen window, squatter in that window) realised on the in-process frps by parking handler goroutines at "
              "verifhook gates, replayed on Model/PortSched.v. "
